@@ -867,7 +867,7 @@ above holds for any `rec`, so the body of *every* element — the first and the 
 
 theorem macro_callback_budget (B : Builtins) (b : Nat) (env : Env) (code : List Instr) (resolve : Bool) (log : Log) :
     runAt B (b + 1) env code resolve log =
-      match loop B (runAt B b) (runAt B b) env code (blockFuel code) 0 { stack := [], log := log } with
+      match loop B (runAt B b) (runFresh B) env code (blockFuel code) 0 { stack := [], log := log } with
       | .fail a l => { res := .error a, log := l }
       | .ok _ s => finish (runAt B b) env resolve s := rfl
 
